@@ -151,6 +151,25 @@ func c05RunConfig(r *ev.Result, base string, idx int, cfg c05Config, cache strin
 	if w2, err := c05Wire(w, "with.sni.example"); nil == err && w2 != wire {
 		v("served-key-varies", fmt.Sprintf("two handshakes saw different keys: %q, %q", wire, w2))
 	}
+	/* Whatever answers on the port, on either loopback address, serves
+	scripts that pin the key it presents (a second socket for the other
+	address family included). */
+	for _, h := range []string{"127.0.0.1", "::1"} {
+		if c, err := hworld.DialAddr(net.JoinHostPort(h, w.Port), ""); nil == err {
+			/* (Judged on that connection alone: another server of this
+			very check may have been given the same port number on the
+			other address family.) */
+			p, _ := c.LeafPin()
+			if res, err := c.Do(hworld.Get("/c", net.JoinHostPort(h, w.Port))); nil == err && 200 == res.Status {
+				for _, m := range c05PinRE.FindAllSubmatch(res.Body, -1) {
+					if string(m[1]) != p {
+						v("advertised-pin-differs/other-address-family", fmt.Sprintf("on %s the port presents key %q and serves a script pinning %q", h, p, m[1]))
+					}
+				}
+			}
+			c.Close()
+		}
+	}
 	n := c05CheckNotices(v, "start-up", w.Startup, wire, w, cfg)
 	if 0 == n {
 		v("no-pin-at-start-up", "no fingerprint among the start-up notices: "+hworld.NoticeText(w.Startup))
